@@ -48,6 +48,9 @@ Lemma sprint_css ind buf e sfx : sprint ind (JSCss buf e sfx)
      | None => []
      end) ++ [CText (indent_text ind); CName buf; CText t_pluseq; CStrLit 39 sfx; CText t_semi_nl].
 Proof. reflexivity. Qed.
+Lemma sprint_call ind buf name d ps : sprint ind (JSCall buf name d ps)
+  = sp_ind ind ++ ([CName buf; CText t_pluseq; CName name; CText t_lpar] ++ jcall_arg d ps ++ [CText t_call_tail]) ++ [CText t_nl].
+Proof. reflexivity. Qed.
 Lemma bprint_cons ind s r : bprint ind (JBCons s r) = sprint ind s ++ bprint ind r. Proof. reflexivity. Qed.
 Lemma lprint_else ind b : lprint ind (JLElse b) = [CText t_else; CText t_brace_nl] ++ bprint (S ind) b ++ sp_ind ind ++ [CText t_rbrace].
 Proof. reflexivity. Qed.
@@ -69,6 +72,8 @@ Lemma swf_switch lv v cs : swf lv (SSwitch v cs) = cwf lv v && kwf lv cs. Proof.
 Lemma swf_for lv x e body hasie ie : swf lv (SFor x e body hasie ie) = is_ident x && cwf lv e && bwf (x :: lv) body && bwf lv ie. Proof. reflexivity. Qed.
 Lemma swf_forrange lv x a1 rest body hasie ie : swf lv (SForRange x a1 rest body hasie ie)
   = is_ident x && (Nat.leb (length rest) 2) && cwf lv a1 && forallb (cwf lv) rest && bwf (x :: lv) body && bwf lv ie. Proof. reflexivity. Qed.
+Lemma swf_call lv name d ps : swf lv (SCall name d ps)
+  = (match d with DExpr e => cwf lv e | _ => true end) && forallb (fun kv => cwf lv (snd kv)) ps. Proof. reflexivity. Qed.
 Lemma bwf_cons lv s r : bwf lv (BCons s r) = swf lv s && bwf lv r. Proof. reflexivity. Qed.
 Lemma ewf_else lv b : ewf lv (EElse b) = bwf lv b. Proof. reflexivity. Qed.
 Lemma ewf_elif lv c th rest : ewf lv (EElif c th rest) = cwf lv c && bwf lv th && ewf lv rest. Proof. reflexivity. Qed.
@@ -211,6 +216,26 @@ Qed.
 
 Ltac chunks_eq := repeat rewrite <- app_assoc; cbn [app]; rewrite ?app_nil_r; reflexivity.
 
+(* ---- calls ---- *)
+(* the JavaScript name a call uses is the template's name (the ES5 formatter; the ES6 formatter renames and imports) *)
+Definition cn_ok : Prop := forall name, fmt_bytes (fmt_call_name (o_fmt o)) name = name.
+Lemma gres_note key imp st i b a s n : shape st i b a s n -> gres (note_called key imp) st [] i b a s n.
+Proof.
+  intro H. destruct imp as [|c r]; [apply gres_ret; exact H|].
+  exists (set_called (aset (j_called st) key (c :: r)) st). split; [reflexivity|]. destruct st; cbn in *. split; [reflexivity|exact H].
+Qed.
+Lemma gen_call_params lv F ps : (forall y, In y (map snd ps) -> (cdepth y < F)%nat) -> forallb (fun kv => cwf lv (snd kv)) ps = true ->
+  forall first acc st1, lvok lv (j_scope st1) ->
+  jcall_params (jwalk o F) first (map cparam_node ps) acc st1 = Ok (acc ++ jps_print first (map (pgen (j_scope st1)) ps), st1).
+Proof.
+  induction ps as [|[k e] r IH]; intros Hd Hwf first acc st1 Hlv; cbn [map jcall_params jps_print cparam_node pgen fst snd].
+  - rewrite app_nil_r. reflexivity.
+  - cbn [forallb snd] in Hwf. apply andb_prop in Hwf. destruct Hwf as [Hwe Hwr].
+    erewrite jbind_ok; [|apply (jblock_expr e lv); [apply Hd; left; reflexivity|exact Hwe|exact Hlv]].
+    rewrite (IH (fun y Hy => Hd y (or_intror Hy)) Hwr false _ st1 Hlv). f_equal. f_equal.
+    destruct first; repeat rewrite <- app_assoc; reflexivity.
+Qed.
+
 Definition GQ_s (s : cstmt) : Prop := forall lv f st j sc' n' i bf a sc n,
   (sdepth s < f)%nat -> sc <> [] -> lvok lv sc -> swf lv s = true -> shape st i bf a sc n -> sgen a bf sc n s = (j, (sc', n')) ->
   gres (jwalk o f (snode s)) st (sprint i j) i bf a sc' n'.
@@ -294,6 +319,8 @@ Proof.
     apply Hrest; exact H4.
   - chunks_eq.
 Qed.
+
+Hypothesis HCN : cn_ok.
 
 Theorem sgen_print_all : (forall s, GQ_s s) /\ (forall b, GQ_b b) /\ (forall e, GQ_e e) /\ (forall k, GQ_k k).
 Proof.
@@ -510,6 +537,37 @@ Proof.
         apply gres_emit; exact Hx3.
       * unfold sp_ind. chunks_eq.
     + eapply gres_eq; [eapply gres_bind; [apply gres_ret; exact H1|intros y Hy; apply Hraw; exact Hy]|reflexivity].
+  - (* call *) intros name d ps lv f st j sc' n' i bf a sc n Hf Hn Hlv Hwf Hs Eg. rewrite sgen_call in Eg. inversion Eg; subst. clear Eg.
+    rewrite sdepth_call in Hf. destruct f as [|F]; [lia|]. rewrite snode_call, sprint_call.
+    eapply gres_walk; [reflexivity|exact Hs|]. intros st1 H1. pose proof H1 as (I1 & B1 & A1 & S1 & N1). cbn [jwalk_node].
+    rewrite swf_call in Hwf. apply andb_prop in Hwf. destruct Hwf as [Hwd Hwp].
+    unfold visit_call.
+    assert (Hlv1 : lvok lv (j_scope st1)) by (rewrite S1; exact Hlv).
+    assert (E0 : (match cdata_node d with
+                  | Some dn => jblock (jwalk o F) dn
+                  | None => jret (if cdata_all d then [CText t_opt_data] else [CText t_empty_obj])
+                  end) st1 = Ok (jd_print (dgen sc' d), st1)).
+    { destruct d as [| |e]; cbn [cdata_node cdata_all dgen jd_print]; try reflexivity.
+      rewrite <- S1. apply (jblock_expr e lv); [cbn [ddepth] in Hf; lia|exact Hwd|exact Hlv1]. }
+    eapply gres_step; [exact E0|reflexivity|].
+    assert (Hdp : forall y, In y (map snd ps) -> (cdepth y < F)%nat) by (intros y Hy; pose proof (cdepths_le y _ Hy); lia).
+    assert (E1 : (match map cparam_node ps with
+                  | [] => jret (jd_print (dgen sc' d))
+                  | _ => ps0 <~ jcall_params (jwalk o F) true (map cparam_node ps) ([CText t_augment] ++ jd_print (dgen sc' d) ++ [CText t_augment_mid]) ;;
+                         jret (ps0 ++ [CText t_augment_end])
+                  end) st1 = Ok (jcall_arg (dgen sc' d) (map (pgen sc') ps), st1)).
+    { destruct ps as [|p r]; [reflexivity|].
+      change (map cparam_node (p :: r)) with (cparam_node p :: map cparam_node r). cbn iota.
+      change (cparam_node p :: map cparam_node r) with (map cparam_node (p :: r)).
+      erewrite jbind_ok; [|apply (gen_call_params lv F (p :: r) Hdp Hwp true _ st1 Hlv1)].
+      rewrite S1. cbn [map jcall_arg jret]. f_equal. f_equal. repeat rewrite <- app_assoc. reflexivity. }
+    eapply gres_step; [exact E1|reflexivity|].
+    rewrite (HCN name).
+    unfold bufname. eapply gres_step; [erewrite jbind_ok; [reflexivity|reflexivity]|reflexivity|].
+    replace (j_buf st1) with bf by (symmetry; exact B1).
+    eapply gres_eq.
+    + gbind x2 Hx2. apply gres_sln; exact H1. apply gres_note; exact Hx2.
+    + rewrite app_nil_r. reflexivity.
   - (* BNil *) intros lv f st jb n' i bf a sc n Hf Hn Hlv Hwf Hs Eg. rewrite bgen_nil in Eg. inversion Eg; subst.
     exists sc. split; [reflexivity|]. apply gres_ret; exact Hs.
   - (* BCons *) intros s IHs r IHr lv f st jb n' i bf a sc n Hf Hn Hlv Hwf Hs Eg. rewrite bgen_cons in Eg. rewrite bdepth_cons in Hf.
